@@ -23,10 +23,12 @@ wrapping arithmetic or absent is reported) and emits the symbolic value classes 
 
 Further families (checks/c20_families.py): every numeric token of the parsed payload replaced by
 value classes with the container re-framed (GLB chunk lengths, fresh zip CRCs, binary PLY / binvox
-header + body); fixed-width binary count fields (STL face count, GLB lengths, PLY list lengths in
-hand-made flavours: either endianness, all count / index types, doubles, quads) under every bit
-flip and class; structural damage of the glTF JSON tree, accessors without bufferView, node
-cycles; the other archive containers (tar.gz, tar.bz2, bz2, zae) and a self-contained text glTF
+header + body); fixed-width binary count fields (STL face count, GLB lengths, sizes / lengths /
+offsets of the zip local header, central directory and end record, PLY list lengths in hand-made
+flavours: either endianness, all count / index types, doubles, quads) under every bit flip and
+class; fresh exports of other geometry than the seed box (scaled by 2^-20 .. 2^40, far from the
+origin, larger, empty, one face, zero-area, non-finite; arcs of every magnitude); structural
+damage of the glTF JSON tree, accessors without bufferView, node cycles; the other archive containers (tar.gz, tar.bz2, bz2, zae) and a self-contained text glTF
 as seeds; multi-file assets by path (obj+mtl+png, gltf+bin) with damaged sidecars / references,
 where every file below the asset directory must be closed again; call variants (pathlib, upper
 case extension, file object at an offset, caller-opened file, loading twice, loader options).
@@ -326,7 +328,8 @@ def load_once(tm, job, data, tmpdir, idx):
         for name, b in aux.items():
             with real_open(os.path.join(jobdir, name), "wb") as fh:
                 fh.write(b)
-        ext = {"stl_ascii": "stl"}.get(ftype, ftype)
+        # a bz2 archive holds one nameless member: its type is what is left of the file name
+        ext = {"stl_ascii": "stl", "bz2": "stl.bz2"}.get(ftype, ftype)
         if mode == "upper":
             ext = ext.upper()
         path = os.path.join(jobdir, "model." + ext)
@@ -734,9 +737,26 @@ def main(argv):
         for cid in list(rejects):
             if rejects[cid] == "time_bound_exceeded" and cid in again and not again[cid]["slow"]:
                 del rejects[cid]
-    for cid, clause in sorted(rejects.items()):
+    # report the rejected records group by group (clause, family, format, kind of change) so that the first
+    # records of the replay file show every distinct group rather than 25 instances of the first one
+    def group_of(cid):
+        how = desc[cid]["how"]
+        kind = "/".join(sorted(k for k in how if k not in ("at", "was", "value", "to"))) if isinstance(how, dict) else str(how)
+        return "%s | %s | %s | %s" % (rejects[cid], desc[cid]["family"], file_type_of(desc[cid]["seed"]), kind)
+
+    groups = {}
+    for cid in sorted(rejects):
+        groups.setdefault(group_of(cid), []).append(cid)
+    order = sorted(rejects, key=lambda cid: (groups[group_of(cid)].index(cid), group_of(cid)))
+    cov["violation_groups"] = {g: len(v) for g, v in sorted(groups.items())}
+    for cid in order:
+        clause = rejects[cid]
+        dev = None
+        if clause == "memory_out_of_proportion_to_input":
+            # attribution only: an id that known_findings.jsonl does not list stays a violation
+            dev = F.memory_deviation(jobs[cid]["ftype"], bytes.fromhex(jobs[cid]["hex"]), jobs[cid]["bypath"])
         V.violation(clause, dict(desc[cid], outcome=results[cid]["outcome"], exc=results[cid]["exc"], ms=results[cid]["ms"],
-                                 mem=results[cid].get("mem_msg", ""), aux_open=results[cid].get("aux_open", 0)))
+                                 mem=results[cid].get("mem_msg", ""), aux_open=results[cid].get("aux_open", 0)), dev)
     hist = {}
     changed = set()
     for r_, dsc in zip(results, desc):
